@@ -634,7 +634,7 @@ fn g_symbolic_scratch(ch: &mut Chooser, acc: &mut Acc) -> B {
 
 fn run_shard(ctx: &ShardCtx, acc: &mut Acc) {
     let tier = ctx.tier;
-    drive(ctx, "programs", tier.pick(25_000, 300_000), 900, acc, &|ch, acc| {
+    drive(ctx, "programs", tier.pick(75_000, 400_000), 900, acc, &|ch, acc| {
         let (class, code) = match ch.below(15) {
             14 => ("symbolic-scratch", g_symbolic_scratch(ch, acc).code()),
             0..=3 => ("storage-free", g_storage_free(ch, acc).code()),
